@@ -37,7 +37,7 @@ TypesExec == [
   Query |-> [kind |-> "OBJECT", possible |-> {"Query"}, possibleSeq |-> <<"Query">>, values |-> <<>>, way |-> "key",
     fields |-> [ o |-> Rs(Nm("T")), on |-> Rs(Nn(Nm("T"))), lo |-> Rs(Li(Nm("T"))), lnn |-> Rs(Li(Nn(Nm("T")))),
                  nl |-> Rs(Nn(Li(Nm("T")))), nlnn |-> Rs(Nn(Li(Nn(Nm("T"))))), ll |-> Rs(Li(Li(Nn(Nm("T"))))), lln |-> Rs(Li(Nn(Li(Nm("T"))))),
-                 a |-> Rs(Nm("A")), p |-> Rs(Nm("P")), np |-> Rs(Nn(Nm("P"))), lp |-> Rs(Li(Nm("P"))), u |-> Rs(Nm("U")), lu |-> Rs(Li(Nn(Nm("U")))),
+                 a |-> Rs(Nm("A")), p |-> Rs(Nm("P")), np |-> Rs(Nn(Nm("P"))), lp |-> Rs(Li(Nm("P"))), lnp |-> Rs(Nn(Li(Nn(Nm("P"))))), u |-> Rs(Nm("U")), lu |-> Rs(Li(Nn(Nm("U")))),
                  s |-> Rs(Nm("String")), sn |-> Rs(Nn(Nm("String"))), i |-> Rs(Nm("Int")), e |-> Rs(Nm("E")),
                  le |-> Rs(Li(Nm("E"))), ls |-> Rs(Li(Nn(Nm("String")))), fl |-> Rs(Nm("Float")), lfl |-> Rs(Li(Nn(Nm("Float")))), idf |-> Rs(Nm("ID")), bo |-> Rs(Nm("Boolean")),
                  f |-> RsA(Nm("String"), FArgs), g |-> RsA(Nm("String"), GArgs), h |-> RsA(Nm("String"), HArgs) ]],
